@@ -466,6 +466,13 @@ Ltac gen_case F H :=
       destruct t' as [m1 h1 o1]; cbn in EH1, EH2 |- *; subst h1; rewrite EH1; reflexivity ]
   end end.
 
+(* the floating-hypothesis test may be a separate short-circuit value ([t <- ret false ;; if t ..]) or already resolved *)
+Ltac skip_float_test :=
+  match goal with
+  | |- context [bind (ret false) _] => rewrite R_bind, R_ret; cbv beta iota
+  | _ => idtac
+  end.
+
 (** one iteration of the main loop *)
 Theorem gen_exec_proof_step_agree labels applied t n t' :
   tstep d sid labels n t = Some t' ->
@@ -511,7 +518,7 @@ Proof.
     + kind_facts F C. unfold ctor_step in H. rewrite EA in H.
       destruct l; cbn [label_eqb]; cbv iota; first [ solve [bin_case H] | solve [gen_case F H] ].
     + (* axiom or rule of Gamma *)
-      kind_facts F C. rewrite R_bind, R_ret. cbv beta iota.
+      kind_facts F C. skip_float_test.
       unfold ax_step in H.
       destruct (save_pops (length (a_ess a)) t []) as [[saved t1]|] eqn:SP; [|discriminate].
       destruct (load_of (TProved (axiom_pat d sid a)) t1) as [t2|] eqn:LD; [|discriminate].
@@ -565,7 +572,7 @@ Proof.
            ++ Rnorm. destruct t' as [m1 h1' o1']. cbn in EH4 |- *. subst h1'. rewrite EH3, EH2, EH1. reflexivity.
            ++ solve_mp_body.
     + (* the three fixed proof rules *)
-      kind_facts F C. rewrite R_bind, R_ret. cbv beta iota.
+      kind_facts F C. skip_float_test.
       destruct l; cbn [label_eqb rule_step] in H |- *; cbv iota;
         try (inversion H; subst t'; Rsimp; destruct t as [m1 h1 o1]; reflexivity).
       * (* prop-1 *)
